@@ -46,7 +46,7 @@ ASSUMPTIONS = [
     "socketpair stands in for TCP except in the real-TCP subset",
 ]
 
-ACTIONS = ["connect", "refused", "op_ok", "op_garbage", "op_badarg", "ctx_ok", "ctx_raise", "ctx_raise_os", "ctx_raise_base", "ctx_refused", "drop", "disconnect"]
+ACTIONS = ["connect", "refused", "op_ok", "op_garbage", "op_badarg", "ctx_ok", "ctx_raise", "ctx_raise_os", "ctx_raise_conn", "ctx_raise_base", "ctx_refused", "drop", "disconnect"]
 PORT = {1: 9957, 2: 10000}
 
 
@@ -58,7 +58,7 @@ class Abort(BaseException):
     """A body failure that is not an Exception (like cancellation or KeyboardInterrupt)."""
 
 
-BODY_EXC = {"ctx_raise": Boom, "ctx_raise_os": TimeoutError, "ctx_raise_base": Abort}
+BODY_EXC = {"ctx_raise": Boom, "ctx_raise_os": TimeoutError, "ctx_raise_conn": ConnectionResetError, "ctx_raise_base": Abort}
 
 
 def depth(tier):
@@ -68,8 +68,10 @@ def depth(tier):
 def enabled(model, a):
     if a == "ctx_refused":
         return not model["connected"]
-    if a in ("op_ok", "op_garbage", "op_badarg"):
+    if a in ("op_garbage", "op_badarg"):
         return model["connected"]
+    if a == "op_ok":
+        return True  # on a client that is not connected the outcome is not judged, the flag is
     if a == "drop":
         return model["live"] and not model["dropped"]
     return True
@@ -79,7 +81,7 @@ def model_next(m, a):
     m = dict(m)
     if a == "connect":
         m.update(connected=True, live=True, dropped=False)
-    elif a in ("ctx_ok", "ctx_raise", "ctx_raise_os", "ctx_raise_base"):
+    elif a in ("ctx_ok", "ctx_raise", "ctx_raise_os", "ctx_raise_conn", "ctx_raise_base"):
         m.update(connected=False, live=True, dropped=False)
     elif a == "drop":
         m.update(dropped=True)
@@ -195,6 +197,13 @@ class World:
 
     def do_op(self, a):
         op, args, script = op_spec(self.kind, a)
+        if self.w.conn is None:
+            # never connected: there is no device end; the call is still made (its outcome is not judged)
+            try:
+                coro = call(self.w.api, op, args)
+            except Exception as exc:  # noqa: BLE001
+                return ("exc", exc)
+            return self.run(coro, None)
         self.w.device.begin(expected_shape(op, None), script, None)
         try:
             coro = call(self.w.api, op, args)
@@ -246,7 +255,7 @@ class World:
             elif out[0] == "hang":
                 res.violation("operation-hangs-after-drop", case, f"{tag}: operation on a dropped connection hangs")
                 ok = False
-        elif a in ("ctx_ok", "ctx_raise", "ctx_raise_os", "ctx_raise_base", "ctx_refused"):
+        elif a in ("ctx_ok", "ctx_raise", "ctx_raise_os", "ctx_raise_conn", "ctx_raise_base", "ctx_refused"):
             self.refuse_next = a == "ctx_refused"
             seen = {}
 
@@ -302,7 +311,7 @@ class World:
             if (host, port, fam) != (self.w.ip, PORT[self.kind], socket.AF_INET):
                 res.violation("connect-address", case, f"{tag}: asked for {(host, port, fam)}, configured {(self.w.ip, PORT[self.kind], 'AF_INET')}")
                 ok = False
-        if a in ("ctx_ok", "ctx_raise", "ctx_raise_os", "ctx_raise_base"):
+        if a in ("ctx_ok", "ctx_raise", "ctx_raise_os", "ctx_raise_conn", "ctx_raise_base"):
             ok = self._after_disconnect(res, case, tag, newest=True) and ok
         try:
             flag = api.connected
@@ -355,7 +364,7 @@ def run_history(kind, actions, res, case, graph=True):
 
 
 TLA_ACTIONS = {"Connect": ["connect"], "Refused": ["refused"], "Operation": ["op_ok", "op_garbage", "op_badarg"],
-               "Context": ["ctx_ok", "ctx_raise", "ctx_raise_os", "ctx_raise_base"], "CtxRefused": ["ctx_refused"], "Drop": ["drop"], "Disconnect": ["disconnect"]}
+               "Context": ["ctx_ok", "ctx_raise", "ctx_raise_os", "ctx_raise_conn", "ctx_raise_base"], "CtxRefused": ["ctx_refused"], "Drop": ["drop"], "Disconnect": ["disconnect"]}
 
 
 def tla_conformance(res, kind):
